@@ -73,7 +73,12 @@ class C06(object):
                 c['rvs'] = sorted(vars_[:k])
                 c['crvs'] = sorted(vars_[k:][:rng.randint(0, n - k)])
             if kind == 'lautum':
-                c['rvs'] = [[0], [1]]
+                # any two disjoint groups, in any order (lautum information is symmetric in its groups)
+                vs = list(range(n))
+                rng.shuffle(vs)
+                k1 = rng.randint(1, max(1, n - 1))
+                g1, g2 = sorted(vs[:k1]), sorted(vs[k1:k1 + rng.randint(1, max(1, n - k1))])
+                c['rvs'] = [g1, g2] if g2 else [[0], [1]]
                 c['crvs'] = []    # the conditional variant has no documented definition; only L(X:Y) is checked
             yield c
 
